@@ -34,7 +34,8 @@ Theorem match_no_arm_fails :
 Proof. exact (conj match_no_arm_l match_no_arm_run_l). Qed.
 Print Assumptions match_no_arm_fails.
 
-(* on every value whose payload the channels can represent, the loop is the property's own match *)
+(* on every value whose payload the channels can represent (everything but the empty string), the loop is the
+   property's own match *)
 Theorem match_refines_spec : forall c arms, good_for_match (c_payload c) = true ->
   mech_match (encode c) arms = spec_match c arms.
 Proof. exact match_refines_l. Qed.
@@ -52,12 +53,11 @@ Theorem payload_roundtrip_refuted :
 Proof. exact payload_roundtrip_refuted_l. Qed.
 Print Assumptions payload_roundtrip_refuted.
 
-(* a payload outside int cannot be bound by name *)
-Theorem match_binds_payload_refuted_long :
-  exists c arms, mech_match (encode c) arms = ArmRange 0 /\ spec_match c arms = ArmOk 0 (VInt 2147483648) /\
-                 c = mkC (s2l "L") (PInt 2147483648) /\ arms = [PatVar (s2l "L") BName].
-Proof. exact long_payload_refuted_l. Qed.
-Print Assumptions match_binds_payload_refuted_long.
+(* every integer payload - also outside int - is bound unchanged (was refuted before /repo b144e56) *)
+Theorem match_binds_long_payload : forall v z arms,
+  mech_match (encode (mkC v (PInt z))) (PatVar v BName :: arms) = ArmOk 0 (VInt z).
+Proof. exact long_payload_bound_l. Qed.
+Print Assumptions match_binds_long_payload.
 
 (* ------------------------------------------------------------------ assignment, passing, return *)
 (* any list of the transports that are sound for the payload's shape leaves the stored value untouched:
@@ -109,11 +109,11 @@ Theorem qmark_ok_yields_payload_partial : forall ls k z sel i, ls <> [] -> exist
 Proof. exact qmark_ok_l. Qed.
 Print Assumptions qmark_ok_yields_payload_partial.
 
-(* link d+1 of a chain of any length fails (any payload, also ""): the transcript is exactly the d+1 `enter`
-   lines - no statement after any ? runs - and the outermost function returns the very stored value the
-   failing link built. Missing: a link above that uses `f(x)?;` as a statement (refuted below) *)
+(* link d+1 of a chain of any length fails (any payload, also ""), whatever the contexts of the links above it
+   (declaration, assignment, return operand, binary operand, expression statement): the transcript is exactly the
+   d+1 `enter` lines - no statement after any ? runs - and the outermost function returns the very stored value
+   the failing link built. Missing (not modelled, recorded finding): e? inside println/call arguments *)
 Theorem qmark_err_returns_same_partial : forall ls k okp d i, (d < List.length ls)%nat ->
-  existsb is_qstmt (firstn d ls) = false ->
   m_chain k okp (i + d) i ls =
     (enters i (S d), match nth_error ls d with Some l => inl (encode (fail_cval k l)) | None => inr XUnmodelled end).
 Proof. exact qmark_err_l. Qed.
@@ -131,13 +131,6 @@ Print Assumptions qmark_err_transcript_is_prefix.
 Theorem qmark_chain_refines_spec_partial : forall p, safe_q p = true -> m_run_q p = s_run_q p.
 Proof. exact chain_refines_run. Qed.
 Print Assumptions qmark_chain_refines_spec_partial.
-
-Theorem qmark_err_returns_same_refuted :
-  let p := mkQ KResult [mkL QStmt (PInt 1); mkL QDecl (PStr (s2l "e2"))] (PInt 5) 2 in
-  m_run_q p = mkR [EEnter 1; EEnter 2; EPost 1 VNo; EArm 0 (VInt 100); EAfter] XOk /\
-  s_run_q p = mkR [EEnter 1; EEnter 2; EArm 1 (VStr (s2l "e2")); EAfter] XOk.
-Proof. exact qmark_statement_refuted_l. Qed.
-Print Assumptions qmark_err_returns_same_refuted.
 
 (* DESIGN.md section 7 #24 *)
 Theorem qmark_ok_yields_payload_refuted :
@@ -159,46 +152,38 @@ Theorem try_ok_iff_no_error : forall chk a b e,
 Proof. exact try_ok_iff_l. Qed.
 Print Assumptions try_ok_iff_no_error.
 
-(* Div0 -> DivisionByZeroError, Bounds -> IndexOutOfBoundsError, Null -> NullPointerError, under try and
-   under checked. Missing: modulo by zero (refuted below) *)
-Theorem try_err_class_partial : forall chk k, k <> RMod0 ->
+(* Div0 and Mod0 -> DivisionByZeroError, Bounds -> IndexOutOfBoundsError, Null -> NullPointerError, under try
+   and under checked (modulo was refuted before /repo 4ea336a) *)
+Theorem try_err_class : forall chk k,
   try_like chk (inr k) = encode (mkC (s2l "Err") (PStr (class_name k ++ s2l ": " ++ err_msg k))).
 Proof. exact try_err_class_l. Qed.
-Print Assumptions try_err_class_partial.
+Print Assumptions try_err_class.
 
 (* classification of arbitrary message texts follows the order of the if-chain *)
 Theorem classify_order : forall msg chk,
   let l := lower msg in
-  (contains (s2l "division by zero") l = true -> classify msg chk = s2l "DivisionByZeroError") /\
-  (contains (s2l "division by zero") l = false -> (contains (s2l "divide") l && contains (s2l "zero") l) = false ->
-   contains (s2l "null pointer") l = true -> classify msg chk = s2l "NullPointerError") /\
-  (contains (s2l "division by zero") l = false -> (contains (s2l "divide") l && contains (s2l "zero") l) = false ->
-   contains (s2l "null pointer") l = false -> contains (s2l "nullptr") l = false ->
+  let div := contains (s2l "division by zero") l || contains (s2l "modulo by zero") l ||
+             (contains (s2l "divide") l && contains (s2l "zero") l) in
+  (div = true -> classify msg chk = s2l "DivisionByZeroError") /\
+  (div = false -> contains (s2l "null pointer") l = true -> classify msg chk = s2l "NullPointerError") /\
+  (div = false -> contains (s2l "null pointer") l = false -> contains (s2l "nullptr") l = false ->
    contains (s2l "bounds") l = true -> classify msg chk = s2l "IndexOutOfBoundsError").
 Proof. exact classify_general. Qed.
 Print Assumptions classify_order.
 
-(* DESIGN.md section 7 #25 *)
-Theorem try_err_class_refuted_modulo :
-  decode (try_like false (ceval 7 0 (CMod CA CB))) = mkC (s2l "Err") (PStr (s2l "Custom: Modulo by zero")) /\
-  decode (try_like true (ceval 7 0 (CMod CA CB))) = mkC (s2l "Err") (PStr (s2l "CheckedError: Modulo by zero")) /\
-  spec_try (ceval 7 0 (CMod CA CB)) = mkC (s2l "Err") (PStr (s2l "DivisionByZeroError: Modulo by zero")).
-Proof. exact try_err_class_modulo_refuted_l. Qed.
-Print Assumptions try_err_class_refuted_modulo.
-
-(* `return try e;` / `return checked e;`: the caller receives the Result and goes on exactly as the property
-   says, for every expression and operands. Missing: every other statement context (refuted below) *)
+(* `return try e;` and the declaration `R r = try e;` (in a Result function, a void function or main): the
+   statement completes, the next statement runs and the Result is what the property says, for every expression
+   and operands. Missing: every other position of try/checked (assignment: refuted below) *)
 Theorem try_program_continues_partial : forall p, safe_t p = true -> m_run_t p = s_run_t p.
 Proof. exact try_refines_l. Qed.
 Print Assumptions try_program_continues_partial.
 
-(* DESIGN.md section 7 #22, for EVERY expression, operands and every context other than `return`: the statement
-   after the one holding try/checked never runs (the property demands it does); in main the program stops
-   silently with exit 0 *)
-Theorem try_program_continues_refuted : forall p, t_ctx p <> TRet ->
+(* the rest of DESIGN.md section 7 #22, for EVERY expression and operands: after `r = try e;` the next statement
+   never runs (the property demands it does); in main the program stops silently with exit 0 *)
+Theorem try_program_continues_refuted : forall p, (t_ctx p = TAsg \/ t_ctx p = TAsgMain) ->
   ~ In EG2 (r_events (m_run_t p)) /\ In EG2 (r_events (s_run_t p)) /\
-  (t_ctx p = TMain -> m_run_t p = mkR [EG1] XOk) /\
-  (t_ctx p = TVoid -> m_run_t p = mkR [EG1; EAfter] XOk).
+  (t_ctx p = TAsgMain -> m_run_t p = mkR [EG1] XOk) /\
+  (t_ctx p = TAsg -> m_run_t p = mkR [EG1; EAfter] XOk).
 Proof. exact try_continues_refuted_l. Qed.
 Print Assumptions try_program_continues_refuted.
 
@@ -210,12 +195,12 @@ Example safe_a_example :
 Proof. vm_compute. split; reflexivity. Qed.
 
 Example safe_q_example :
-  let p := mkQ KResult [mkL QDecl (PStr (s2l "e1")); mkL QRet (PInt 2); mkL QStmt (PInt 3); mkL QAsg (PStr (s2l "e4"))] (PInt 7) 2 in
-  safe_q p = true /\ m_run_q p = mkR [EEnter 1; EEnter 2; EArm 1 (VInt 2); EAfter] XOk.
+  let p := mkQ KResult [mkL QStmt (PStr (s2l "e1")); mkL QRet (PInt 2); mkL QStmt (PInt 3); mkL QAsg (PStr (s2l "e4"))] (PInt 7) 3 in
+  safe_q p = true /\ m_run_q p = mkR [EEnter 1; EEnter 2; EEnter 3; EArm 1 (VInt 3); EAfter] XOk.
 Proof. vm_compute. split; reflexivity. Qed.
 
 Example safe_t_example :
-  let p := mkT true TRet 7 2 (CAdd (CDiv CA CB) (CIdx (CLit 3))) in
+  let p := mkT true TMain 7 0 (CAdd (CMod CA CB) (CIdx (CLit 3))) in
   safe_t p = true /\
-  m_run_t p = mkR [EG1; EArm 1 (VStr (s2l "IndexOutOfBoundsError: Array index out of bounds")); EAfter] XOk.
+  m_run_t p = mkR [EG1; EG2; EArm 1 (VStr (s2l "DivisionByZeroError: Modulo by zero")); EAfter] XOk.
 Proof. vm_compute. split; reflexivity. Qed.
